@@ -19,7 +19,7 @@ Flat(tr) == tr.ev \o << <<tr.eot, EotEv>> >>
 IsOff(e) == e.k = "off" \/ (e.k = "on" /\ e.v = 0)
 IsOn(e)  == e.k = "on" /\ e.v > 0
 IsCtl(e) == e.k \in {"cc", "pc", "bend", "cat"}
-IsMetaCls(e) == e.k \in {"marker", "loopstart", "cc111", "loopend", "begin"}
+IsMetaCls(e) == e.k \in {"marker", "loopstart", "cc111", "loopend", "begin"} \/ (e.k = "text" /\ e.ty = 9)   \* FF 09 (device switch) sorts with the markers
 IsSysex(e) == e.k \in {"sysex", "sysex7"}
 RECURSIVE MoveOffs(_, _, _, _, _)
 \* scan noteOffs for note p of a note-on; returns [offs, moved, cnt]
